@@ -21,6 +21,10 @@ CHECKS = {
           "Every expression of the bounded fragment is parsed, prepared and evaluated three times in scopes of depth 1-3; the rendering of the caller's scope must be identical before and after each step and the three values equal. Every sequence of evaluations up to the length bound over 45 FEEL operations and 15 model operations is executed on fresh objects; each result must equal the result of the same operation on pristine objects and every scope / input context must read as initially.",
           "Observes state through Scope's and FeelContext's textual rendering and through results; hidden state that never influences a result within the length bound is not observable. Sequences are not deduplicated by state (the observable state is constant when the property holds, so deduplication would make the search vacuous).",
           "DESIGN.md §4 C13"),
+  "C02": ("exhaustive enumeration of an operand lattice (zeros, subnormal and overflow edges, 34-digit values, exact ties, trailing-zero variants, operands 34+ orders apart, both signs): every ordered pair for + - * / = < <=, lattice x reduced operands for ** modulo decimal, every unary built-in; each row recomputed by CPython's decimal module configured as decimal128",
+          "Every row is executed at the FeelNumber API level and as a FEEL expression; the oracle recomputes each one (exactly; exp, log and inexact powers within 2 ulp; modulo by exact rational arithmetic) and requires null exactly where the result is undefined or out of range, and never an infinite or NaN value.",
+          "Trusts libmpdec (CPython decimal) as decimal128. Underflow to subnormal/zero and non-integer scales are left unspecified and not compared. Operands off the lattice are not covered.",
+          "DESIGN.md §4 C02"),
   "C06": ("bounded exhaustive enumeration of syntax trees (every constructor in every slot of every constructor, depth-3 spines) x parenthesisations x layouts, and of every string escape of every code point, against a precedence-table unparser",
           "Every tree of the bounded space is rendered fully parenthesised, minimally parenthesised and with each needed pair removed, in six token-preserving layouts, and parsed by the real parser; the parsed tree is compared with the generating tree. All 1 114 112 code points in every escape spelling and all 1 048 576 surrogate pairs are lexed. A coverage statement within the depth bound, not a sample.",
           "Trusts the transcribed precedence table in harness/vh/src/term.rs (validated by this run itself: a wrong table shows up as a mismatch) and AstNode's derived PartialEq. Trees deeper than 3 are outside the bound.",
